@@ -691,7 +691,17 @@ fn op_step(hdr: Vec<u8>, recs: Vec<Vec<u8>>, cap: usize) -> String {
     out.push(if plain == proj {
         "plain=ok".to_string()
     } else {
-        format!("plain=differ:{}:{}", plain.len(), if plain.len() >= cap { "endless" } else { "ended" })
+        // (does the API without records go on yielding pairs after it has reported an error?)
+        let after = plain
+            .iter()
+            .position(|x| x.starts_with('E'))
+            .map_or(false, |k| plain[k + 1..].iter().any(|x| x.starts_with("P ")));
+        format!(
+            "plain=differ:{}:{}{}",
+            plain.len(),
+            if plain.len() >= cap { "endless" } else { "ended" },
+            if after { "-pairs-after-error" } else { "" }
+        )
     });
     out.join(" ; ")
 }
